@@ -1,10 +1,22 @@
 """C26 — RPC requests retry exactly the transient node failures.
 
 Fault enumeration over the complete environment-answer tree: after each answer the real
-RpcNode.request loop either asks again (the explorer branches over the whole alphabet)
-or returns / raises (leaf).  The oracle is the statement, written as `expected()`.
+retry loop either asks again (the explorer branches over the whole alphabet) or returns /
+raises (leaf).  The oracle is the statement, written as `expected()`.
+
+Three more dimensions are enumerated on top of the answer tree:
+* ENTRY  - the layer through which the request is issued (RpcNode.request, the RpcNode verb helpers, a two-node
+           RpcMultiNode, the public query layer `ShellQuery(...).chains.main.chain_id()` with and without query
+           parameters, the `_get/_post/_put/_delete` helpers of the query layer).  The HTTP seam is below all of them, so
+           "a request is sent again only after a transient server error" is judged on what reaches the node.
+* PAD    - the size of the answer bodies: every body of the alphabet padded before AND after its deciding part
+           (text marker / JSON error entries) so that the decision cannot be taken from a bounded head or tail.
+* SESSION - several requests issued one after the other on the SAME client objects (process/object history); every request
+           of a session is judged on its own against the statement, which knows no history.
 """
 from __future__ import annotations
+
+import json as _json
 
 from mc.engine.report import Result
 from mc.fakes import FakeResponse, patched_http
@@ -12,19 +24,29 @@ from mc.fakes import FakeResponse, patched_http
 ID = 'C26'
 LEVEL = 'fault_enumeration'
 LEVEL_TEXT = ('the retry loop is a finite-state machine over (attempt number, class of the last answer); the complete answer tree up to the attempt '
-              'cap is enumerated, so every reachable behaviour of the loop over the answer alphabet is decided against the statement')
-RULE = ('complete tree of node answers: every sequence over the 17-answer alphabet that the real retry loop can '
-        'consume (it asks for another answer or finishes); non-trivial = distinct sequences with >=1 retry-eligible '
-        'answer; leaves compared with the statement: #requests, delay list, returned JSON / raised error of the last response')
-BOUND = {'quick': 'all answer sequences up to the attempt cap (depth<=7), method GET',
-         'thorough': 'same tree x {GET,POST,PUT,DELETE} x timeout in {None,5}'}
+              'cap is enumerated for every entry layer and body size, so every reachable behaviour of the loop over the answer alphabet is decided '
+              'against the statement; sessions of two and three requests on the same client objects show that this machine has no memory')
+RULE = ('complete tree of node answers: every sequence over the 17-answer alphabet that the real retry loop can consume (it asks for another '
+        'answer or finishes), per (entry layer, method, timeout, body padding); a sequence the statement calls finished but the code continues is '
+        'closed with one success answer and reported.  Sessions: every ordered pair (triple) of statement-complete sequences over a reduced '
+        'alphabet issued on the same client objects, each request judged separately.  non-trivial = distinct (dimension, sequence) with >=1 '
+        'retry-eligible answer (sessions: in a request after the first).  Leaves compared with the statement: #requests, delay list, identical '
+        'request arguments, returned JSON / raised error of the last response')
+BOUND = {'quick': 'all answer sequences up to the attempt cap (depth<=7), GET, entries {request, verb, multi, query, query+params, _verb}, body padding '
+                  '{0, 1200} chars on both sides as complete trees and one big answer (padding 5000, 70000) at every position of a sequence after 0..5 small '
+                  'temporary errors with every continuation over ok/t500/perm500/e404 (request and query entries); sessions: 253x253 pairs (alphabet ok/t500/preval/perm500/e404) on one '
+                  'RpcNode, 19x19 pairs x 4 entry combinations incl. RpcMultiNode and one reused query object, 19^3 triples x 2 entry patterns',
+         'thorough': 'same trees x {GET,POST,PUT,DELETE} x timeout in {None,5} for request/verb, multi/_verb x 4 methods, complete padded trees {300,1200,4200,17000}; one '
+                     'big answer per sequence padded {300,5000,70000} x 5 entries and 1100000 x {request}; pair sessions 253x253 for 5 entry patterns '
+                     '(one with bodies padded 1200), triples 19^3 x 4 entry patterns'}
 ASSUMPTIONS = ['requests.request and time.sleep (as imported by pytezos.rpc.node) are the only environment seams',
                'a JSON error list that contains a proto.* entry is not transient whatever its other entries are (the statement: "errors are temporary '
                'and not protocol errors"); answers mixing a proto.* error with the prevalidator TEXT marker, or non-protocol temporary with '
-               'non-protocol permanent errors, are left out: the statement does not order those rules']
+               'non-protocol permanent errors, are left out: the statement does not order those rules',
+               'padding keeps the class of an answer: text bodies get marker-free dump lines before and after, JSON error lists get copies of their '
+               'first entry in front and of their last entry behind (each with a filler message)']
 
 T1 = [{'kind': 'temporary', 'id': 'node.prevalidation.busy'}]
-T2 = [{'kind': 'permanent', 'id': 'a.b'}, {'kind': 'temporary', 'id': 'c.d'}]
 ALPHABET = {
     # name: (status, body, content-type, transient?)
     'ok': (200, {'ok': 1}, 'application/json', False),
@@ -49,129 +71,389 @@ ALPHABET = {
 }
 NAMES = list(ALPHABET)
 DELAYS = [0.25, 0.5, 1.0, 2.0, 2.0]
+CAP = 6
+R2 = ['ok', 't500', 'preval', 'perm500', 'e404']    # session alphabet: two transient shapes, success, server and client failure
+R1 = ['ok', 't500', 'perm500', 'e404']
+
+# ---------------------------------------------------------------------------------------------------------------------
+# bodies of any size
+_DUMP_HEAD = 'Uncaught exception in RPC handler while processing operation 0x'
+_DUMP_TAIL = 'Called from Lwt.callback in file "src/core/lwt.ml", line 1849\n'
+_FILL = 'injection of the operation was delayed, the worker queue is being flushed '
+_BODY = {}
 
 
-class NeedMore(Exception):
-    pass
+def transient(letter):
+    return ALPHABET[letter.split('+')[0]][3]
 
 
-def drive(seq, method='GET', timeout=None):
-    """Run the real RpcNode.request against the answer sequence; returns an observation dict.
-    Raises NeedMore if the loop asks for an answer beyond the sequence."""
-    from pytezos.rpc.node import RpcError, RpcNode
-    calls, sleeps = [], []
-    it = iter(seq)
+def padded(name, pad):
+    """(status, body, text, content-type) of answer `name` with about `pad` characters before and after its deciding part.
+    A letter spelled 'name+P' carries its own padding P whatever the padding of the case is."""
+    k = (name, pad)
+    if k not in _BODY:
+        if '+' in name:
+            name, pad = name.split('+')[0], int(name.split('+')[1])
+        st, body, ct, _ = ALPHABET[name]
+        if pad:
+            if isinstance(body, str):
+                head = (_DUMP_HEAD + 'a3f1' * (pad // 4 + 1))[:pad - 1] + '\n'
+                tail = '\n' + (_DUMP_TAIL * (pad // len(_DUMP_TAIL) + 1))[:pad]
+                body = head + body + tail
+            elif isinstance(body, list):
+                k_fill = pad // 128 + 1
+                body = [dict(body[0], msg=_FILL)] * k_fill + body + [dict(body[-1], msg=_FILL)] * k_fill
+            else:
+                body = {'head': 'x' * pad, **body, 'tail': 'y' * pad}
+        _BODY[k] = (st, body, body if isinstance(body, str) else _json.dumps(body), ct)
+    return _BODY[k]
+
+
+# ---------------------------------------------------------------------------------------------------------------------
+# entry layers
+BASES = ['http://n.invalid', 'http://m.invalid']
+QPATH = '/chains/main/chain_id'
+ENTRIES = {
+    # name: (path as reported in 401/404 messages, honours the timeout argument?, query params seen by the seam, methods)
+    'request': ('a/b', True, None, ('GET', 'POST', 'PUT', 'DELETE')),
+    'verb': ('a/b', True, None, ('GET', 'POST', 'PUT', 'DELETE')),
+    'multi': ('a/b', True, None, ('GET', 'POST', 'PUT', 'DELETE')),
+    'query': (QPATH, False, {}, ('GET',)),
+    'queryp': (QPATH, False, {'active': 'true'}, ('GET',)),
+    '_verb': (QPATH, False, None, ('GET', 'POST', 'PUT', 'DELETE')),
+}
+
+
+class NeedMore(BaseException):
+    """The code under test asks for an answer beyond the sequence (BaseException: no `except Exception` of the code under test may eat it)."""
+
+
+class Client:
+    """The client objects of one session: created once, reused by every request of the session."""
+
+    def __init__(self):
+        self.made = {}
+        self.multi_used = 0
+
+    def obj(self, what):
+        """Objects are made on first use INSIDE the judged call, so that a layer that cannot even be constructed is a verdict, not a harness error."""
+        if what not in self.made:
+            from pytezos.rpc.node import RpcMultiNode, RpcNode
+            if what == 'node':
+                self.made[what] = RpcNode(BASES[0])
+            elif what == 'multi':
+                self.made[what] = RpcMultiNode(list(BASES))
+            else:
+                from pytezos.rpc.shell import ShellQuery
+                self.made[what] = ShellQuery(self.obj('node')).chains.main.chain_id
+        return self.made[what]
+
+    def base_of_next(self, entry):
+        """Node address every attempt of the next request must go to (RpcMultiNode: round robin per REQUEST, not per attempt)."""
+        return BASES[self.multi_used % len(BASES)] if entry == 'multi' else BASES[0]
+
+    def perform(self, entry, method, timeout):
+        """Issue ONE request; returns the value handed to the caller."""
+        kw = {} if timeout is None else {'timeout': timeout}
+        if entry == 'request':
+            return self.obj('node').request(method, 'a/b', **kw).json()
+        if entry == 'verb':
+            return getattr(self.obj('node'), method.lower())('a/b', **kw)
+        if entry == 'multi':
+            self.multi_used += 1
+            return self.obj('multi').request(method, 'a/b', **kw).json()
+        if entry == 'query':
+            return self.obj('q')()
+        if entry == 'queryp':
+            return self.obj('q')(active='true')
+        if entry == '_verb':
+            return getattr(self.obj('q'), '_' + method.lower())()
+        raise ValueError(entry)
+
+
+def drive_session(session, entries, method='GET', timeout=None, pad=0, strict=False):
+    """Run the requests of `session` (a list of answer sequences) one after the other on the same client objects, request i through
+    entry layer entries[i % len(entries)].  Returns one observation dict per request.  A request that asks for more answers than its
+    sequence holds gets success answers (strict=False, observation flagged 'overflow') or raises NeedMore (strict=True)."""
+    from pytezos.rpc.node import RpcError
+    cur = {}
 
     def fake_request(**kw):
-        calls.append((kw.get('method'), kw.get('url'), kw.get('timeout')))
-        try:
-            name = next(it)
-        except StopIteration:
+        cur['calls'].append((kw.get('method'), kw.get('url'), kw.get('timeout')))
+        cur['args'].append(_json.dumps({k: v for k, v in kw.items() if k not in ('method', 'url', 'timeout')}, sort_keys=True, default=repr))
+        i = len(cur['calls']) - 1
+        if i < len(cur['seq']):
+            name = cur['seq'][i]
+        elif strict or i > len(cur['seq']) + 12:
             raise NeedMore()
-        st, body, ct, _ = ALPHABET[name]
-        return FakeResponse(st, body, ct)
+        else:
+            cur['overflow'] += 1
+            name = 'ok'
+        st, _, text, ct = padded(name, pad)
+        return FakeResponse(st, text, ct)
 
-    node = RpcNode('http://n.invalid')
-    obs = {}
-    with patched_http(fake_request, sleeps.append):
-        try:
-            kw = {} if timeout is None else {'timeout': timeout}
-            res = node.request(method, 'a/b', **kw)
-            obs['result'] = ('ok', res.json())
-        except NeedMore:
-            raise
-        except RpcError as e:
-            obs['result'] = ('rpc_error', type(e).__name__, list(e.args))
-        except Exception as e:  # anything else is not what the statement allows
-            obs['result'] = ('crash', type(e).__name__, str(e))
-    obs['calls'] = calls
-    obs['sleeps'] = sleeps
-    return obs
+    def fake_sleep(d):
+        cur['sleeps'].append(d)
+
+    out = []
+    with patched_http(fake_request, fake_sleep):
+        client = Client()
+        for i, seq in enumerate(session):
+            cur.clear()
+            cur.update(seq=seq, calls=[], args=[], sleeps=[], overflow=0)
+            entry = entries[i % len(entries)]
+            obs = {'base': client.base_of_next(entry)}
+            try:
+                obs['result'] = ('ok', client.perform(entry, method, timeout))
+            except RpcError as e:
+                obs['result'] = ('rpc_error', type(e).__name__, list(e.args))
+            except NeedMore:
+                if strict:
+                    raise
+                obs['result'] = ('crash', 'NeedMore', 'keeps sending the request although every further answer is a success')
+            except Exception as e:  # anything else is not what the statement allows
+                obs['result'] = ('crash', type(e).__name__, str(e)[:300])
+            obs.update(calls=list(cur['calls']), args=list(cur['args']), sleeps=list(cur['sleeps']), overflow=cur['overflow'], entry=entry)
+            out.append(obs)
+    return out
 
 
-def expected(seq, method, timeout):
+def drive(seq, method='GET', timeout=None, entry='request', pad=0):
+    """One request on fresh objects; raises NeedMore if the loop asks for an answer beyond the sequence."""
+    return drive_session([seq], [entry], method, timeout, pad, strict=True)[0]
+
+
+def complete(seq):
+    """Does the statement say the request is over after these answers?"""
+    return bool(seq) and (not transient(seq[-1]) or len(seq) >= CAP)
+
+
+def expected(seq, method, timeout, entry='request', pad=0, base=BASES[0]):
     n = 0
     for i, name in enumerate(seq):
         n = i + 1
-        if ALPHABET[name][3] and i < 5:
+        if transient(name) and i < CAP - 1:
             continue
         break
-    last = seq[n - 1]
-    st, body, ct, _ = ALPHABET[last]
+    path, has_timeout, _, _ = ENTRIES[entry]
+    st, body, _, ct = padded(seq[n - 1], pad)
     if st == 200:
         result = ('ok', body)
     elif st == 401:
-        result = ('rpc_error', None, ['Unauthorized: a/b'])
+        result = ('rpc_error', None, ['Unauthorized: ' + path])
     elif st == 404:
-        result = ('rpc_error', None, ['Not found: a/b'])
+        result = ('rpc_error', None, ['Not found: ' + path])
     elif isinstance(body, list):
         result = ('rpc_error', None, [body[-1]])
     else:
         result = ('rpc_error', None, [body])
+    url = base + '/' + path.strip('/')
     return {'n': n, 'sleeps': DELAYS[:n - 1], 'result': result,
-            'calls': [(method, 'http://n.invalid/a/b', timeout or 60)] * n}
+            'calls': [(method, url, (timeout if has_timeout else None) or 60)] * n}
 
 
-def check(seq, method='GET', timeout=None):
-    obs = drive(seq, method, timeout)
-    exp = expected(seq, method, timeout)
+def _short(x, n=400):
+    s = repr(x)
+    return s if len(s) <= n else s[:n // 2] + ' ... ' + s[-n // 2:]
+
+
+def judge(seq, obs, method, timeout, pad, where=''):
+    """Compare the observation of ONE request with the statement."""
+    entry = obs['entry']
+    exp = expected(seq, method, timeout, entry, pad, obs['base'])
+    ncalls = len(obs['calls'])
     out = []
-    if len(obs['calls']) != exp['n']:
-        why = 'retried a non-transient answer' if len(obs['calls']) > exp['n'] else 'did not retry a transient answer'
-        if len(seq) >= 6 and len(obs['calls']) > 6:
+    if ncalls != exp['n']:
+        why = 'retried a non-transient answer' if ncalls > exp['n'] else 'did not retry a transient answer'
+        if exp['n'] >= CAP and ncalls > CAP:
             why = 'more than six attempts'
-        out.append((why, f'seq={seq} requests={len(obs["calls"])} expected={exp["n"]}'))
+        out.append((why, f'{where}seq={seq} requests={ncalls} expected={exp["n"]}'))
     elif obs['sleeps'] != exp['sleeps']:
-        out.append(('wrong delays', f'seq={seq} sleeps={obs["sleeps"]} expected={exp["sleeps"]}'))
-    elif obs['calls'] != exp['calls']:
-        out.append(('request arguments differ between attempts', f'seq={seq} calls={obs["calls"]}'))
+        out.append(('wrong delays', f'{where}seq={seq} sleeps={obs["sleeps"]} expected={exp["sleeps"]}'))
+    elif obs['calls'] != exp['calls'] or len(set(obs['args'])) > 1:
+        out.append(('request arguments differ between attempts', f'{where}seq={seq} calls={obs["calls"]} args={_short(sorted(set(obs["args"])))}'))
+    elif ENTRIES[entry][2] is not None and _json.loads(obs['args'][0]).get('params') != ENTRIES[entry][2]:
+        out.append(('request arguments differ between attempts', f'{where}seq={seq} query parameters sent: {_short(obs["args"][0])}'))
     r, e = obs['result'], exp['result']
     if r[0] != e[0] or (r[0] == 'ok' and r[1] != e[1]) or (r[0] == 'rpc_error' and r[2] != e[2]):
-        out.append((f'wrong final outcome after {ALPHABET[seq[len(obs["calls"]) - 1]][0] if obs["calls"] and len(obs["calls"]) <= len(seq) else "?"}',
-                    f'seq={seq} got={r} expected={e}'))
-    return out, obs
+        last = padded(seq[ncalls - 1], pad)[0] if 0 < ncalls <= len(seq) else 200 if ncalls else 'no request'   # beyond the sequence every answer is a success
+        out.append((f'wrong final outcome after {last}', f'{where}seq={seq} got={_short(r)} expected={_short(e)}'))
+    return out
 
 
-def explore(prefix, method, timeout, r: Result):
+def check(seq, method='GET', timeout=None, entry='request', pad=0):
+    obs = drive(seq, method, timeout, entry, pad)
+    return judge(seq, obs, method, timeout, pad, f'{method} via {entry}, body padding {pad}: '), obs
+
+
+def check_session(session, entries, method='GET', timeout=None, pad=0):
+    obss = drive_session(session, entries, method, timeout, pad)
+    out = []
+    for i, (seq, obs) in enumerate(zip(session, obss)):
+        where = f'request {i + 1} of {len(session)} on the same objects (via {obs["entry"]}): ' if len(session) > 1 else f'via {obs["entry"]}: '
+        for d, detail in judge(seq, obs, method, timeout, pad, where):
+            out.append((d if i == 0 else d + ' (request after earlier requests on the same client objects)',
+                        detail + (f' session={session}' if len(session) > 1 else '')))
+    return out, obss
+
+
+# ---------------------------------------------------------------------------------------------------------------------
+def explore(prefix, dims, r: Result, closing=False):
+    method, timeout, entry, pad = dims
     try:
-        vs, obs = check(prefix, method, timeout)
+        vs, obs = check(prefix, method, timeout, entry, pad)
     except NeedMore:
         r.transitions += 1
-        for a in NAMES:
-            explore(prefix + [a], method, timeout, r)
+        if closing:
+            r.ev()
+            r.out('keeps asking after the closing success')
+            r.viol('more than six attempts' if len(prefix) > CAP else 'retried a non-transient answer',
+                   {'seq': prefix, 'method': method, 'timeout': timeout, 'entry': entry, 'pad': pad},
+                   f'seq={prefix}: the request is sent again even after a success answer')
+        elif complete(prefix):
+            # the statement says the request is over: do not branch (the tree would not be finite), offer one success and report
+            explore(prefix + ['ok'], dims, r, closing=True)
+        else:
+            for a in NAMES:
+                explore(prefix + [a], dims, r)
         return
     r.ev()
-    case = {'seq': prefix, 'method': method, 'timeout': timeout}
-    if any(ALPHABET[a][3] for a in prefix):
-        r.nt((tuple(prefix), method, timeout))
+    case = {'seq': prefix, 'method': method, 'timeout': timeout, 'entry': entry, 'pad': pad}
+    if any(transient(a) for a in prefix):
+        r.nt(('tree', tuple(prefix), dims))
     r.out(f'{len(obs["calls"])} requests -> {obs["result"][0]}')
     for d, detail in vs:
         r.viol(d, case, detail)
-    if len(prefix) in (1, 3, 6) and prefix[-1] in ('ok', 'perm500') and len(r.samples) < 4:
+    if len(prefix) in (1, 3, 6) and prefix[-1] in ('ok', 'perm500') and len(r.samples) < 2:
         r.sample(case)
     r._last = case
 
 
+def reference_tree(alphabet):
+    """Every answer sequence over `alphabet` that is complete according to the statement, shortest first."""
+    out, level = [], [[a] for a in alphabet]
+    while level:
+        nxt = []
+        for s in level:
+            if complete(s):
+                out.append(s)
+            else:
+                nxt.extend(s + [a] for a in alphabet)
+        level = nxt
+    return out
+
+
+def shape_sequences(pad, k):
+    """Statement-complete sequences with ONE kind of big answer: k small temporary errors, then answer X padded by `pad` (every X of the
+    alphabet), then every continuation over the small session alphabet plus the big answer itself."""
+    out = []
+    for x in NAMES:
+        big = f'{x}+{pad}'
+        alpha = R1 + ([big] if transient(x) else [])
+        level = [['t500'] * k + [big]]
+        while level:
+            nxt = []
+            for q in level:
+                if complete(q):
+                    out.append(q)
+                else:
+                    nxt.extend(q + [a] for a in alpha)
+            level = nxt
+    return out
+
+
+TREES = {
+    'quick': [('GET', None, e, 0) for e in ENTRIES] + [('GET', None, e, 1200) for e in ('request', 'query')],
+    'thorough': ([(m, t, e, 0) for e in ('request', 'verb') for m in ENTRIES[e][3] for t in (None, 5)]
+                 + [(m, None, e, 0) for e in ('multi', '_verb') for m in ENTRIES[e][3]] + [('GET', 5, 'multi', 0)]
+                 + [('GET', None, e, 0) for e in ('query', 'queryp')]
+                 + [('GET', None, e, p) for p in (300, 1200, 4200) for e in ('request', 'query')]
+                 + [('GET', None, 'request', 17000), ('POST', 5, 'verb', 1200)]),
+}
+# one big answer per sequence, for body sizes whose complete tree would cost minutes: (entry, padding)
+SHAPES = {
+    'quick': [(e, p) for p in (5000, 70000) for e in ('request', 'query')],
+    'thorough': [(e, p) for p in (300, 5000, 70000) for e in ('request', 'verb', 'multi', 'query', '_verb')] + [('request', 1100000)],
+}
+PAIR_CHUNKS = 32
+# (kind, alphabet, entry pattern, pad): request i of a session goes through pattern[i % len(pattern)]
+SESSIONS = {
+    'quick': [('pairs', 'R2', ('request',), 0)]
+             + [('pairs', 'R1', pat, 0) for pat in (('query',), ('request', 'query'), ('query', 'verb'), ('multi',))]
+             + [('triples', 'R1', pat, 0) for pat in (('request',), ('query', 'request'))],
+    'thorough': [('pairs', 'R2', pat, p) for pat, p in ((('request',), 0), (('query',), 0), (('request', 'query'), 1200), (('multi',), 0), (('_verb', 'verb'), 0))]
+                + [('triples', 'R1', pat, 0) for pat in (('request',), ('query', 'request'), ('multi',), ('verb', '_verb', 'queryp'))],
+}
+
+
 def shards(tier, seed):
-    if tier == 'quick':
-        return [(first, 'GET', None) for first in NAMES]
-    return [(first, m, t) for first in NAMES for m in ('GET', 'POST', 'PUT', 'DELETE') for t in (None, 5)]
+    out = [('tree', dims, first) for dims in TREES[tier] for first in NAMES]
+    out += [('shape', e, p, k) for e, p in SHAPES[tier] for k in range(CAP)]
+    for kind, alpha, pat, pad in SESSIONS[tier]:
+        n = PAIR_CHUNKS if alpha == 'R2' else 4
+        out += [('session', kind, alpha, pat, pad, k, n) for k in range(n)]
+    return out
+
+
+def run_sessions(sessions, pat, pad, r, label):
+    last = None
+    for session in sessions:
+        vs, obss = check_session(session, pat, 'GET', None, pad)
+        r.ev()
+        r.traces += 1
+        case = {'session': session, 'entries': list(pat), 'method': 'GET', 'timeout': None, 'pad': pad}
+        if any(transient(a) for q in session[min(1, len(session) - 1):] for a in q):
+            r.nt((label, tuple(map(tuple, session)), pat, pad))
+        o = obss[-1]
+        r.out(f'{label}: {len(o["calls"])} requests -> {o["result"][0]}')
+        for d, detail in vs:
+            r.viol(d, case, detail)
+        last = case
+    if last is not None:
+        r.sample(last)
 
 
 def run_shard(spec, tier):
-    first, method, timeout = spec
     r = Result()
-    explore([first], method, timeout, r)
-    r.sample(r._last)
+    if spec[0] == 'tree':
+        _, dims, first = spec
+        explore([first], tuple(dims), r)
+        r.sample(r._last)
+    elif spec[0] == 'shape':
+        _, entry, pad, k = spec
+        run_sessions(([q] for q in shape_sequences(pad, k)), (entry,), 0, r, 'one big answer')
+    else:
+        _, kind, alpha, pat, pad, k, n = spec
+        ref = reference_tree(R2 if alpha == 'R2' else R1)
+        # the history: every first request of this chunk, followed by every second (and third) request
+        run_sessions(([h, s] + ([u] if u else []) for h in ref[k::n] for s in ref for u in (ref if kind == 'triples' else [None])),
+                     pat, pad, r, f'request {3 if kind == "triples" else 2} of a session')
     return r
 
 
 def replay(case):
+    method, timeout, pad = case.get('method', 'GET'), case.get('timeout'), case.get('pad', 0)
+    if 'session' in case:
+        return check_session([list(s) for s in case['session']], list(case['entries']), method, timeout, pad)[0]
+    seq = list(case['seq'])
     try:
-        return check(list(case['seq']), case.get('method', 'GET'), case.get('timeout'))[0]
+        return check(seq, method, timeout, case.get('entry', 'request'), pad)[0]
     except NeedMore:
-        return [('loop asks for more answers than the recorded sequence', str(case))]
+        return [('more than six attempts' if len(seq) > CAP else 'retried a non-transient answer',
+                 f'the request is sent again after the recorded sequence {seq}')]
+
+
+def _slim(obs):
+    obs = dict(obs)
+    obs['result'] = _short(obs['result'], 2000)
+    return obs
 
 
 def observe(case):
-    return drive(list(case['seq']), case.get('method', 'GET'), case.get('timeout'))
+    method, timeout, pad = case.get('method', 'GET'), case.get('timeout'), case.get('pad', 0)
+    if 'session' in case:
+        return [_slim(o) for o in drive_session([list(s) for s in case['session']], list(case['entries']), method, timeout, pad)]
+    try:
+        return _slim(drive(list(case['seq']), method, timeout, case.get('entry', 'request'), pad))
+    except NeedMore:
+        return 'asks for more answers'
